@@ -505,6 +505,109 @@ fn all_ids(doc: &[Node]) -> Vec<String> {
     v
 }
 
+
+// ---------------------------------------------------------------- class predicates (as in Model/GlifSpec.v)
+fn blank(s: &str) -> bool {
+    s.chars().all(|c| c == ' ' || c == '\t' || c == '\n' || c == '\r')
+}
+fn prolog_node(n: &Node) -> bool {
+    match n {
+        Node::Decl | Node::Comment(_) | Node::DocType(_) => true,
+        Node::Text(s) => blank(s),
+        _ => false,
+    }
+}
+fn root_of(doc: &[Node]) -> Option<&Node> {
+    doc.iter().find(|n| !prolog_node(n))
+}
+fn tview(l: &[Node]) -> Vec<&Node> {
+    l.iter().filter(|n| !matches!(n, Node::Text(s) if blank(s))).collect()
+}
+fn sig_kids(l: &[Node]) -> Vec<&Node> {
+    l.iter().filter(|n| !matches!(n, Node::Comment(_)) && !matches!(n, Node::Text(s) if blank(s))).collect()
+}
+fn kids_of(n: &Node) -> &[Node] {
+    match n {
+        Node::Elem(_, _, k) => k,
+        _ => &[],
+    }
+}
+fn is_kind(n: &Node, k: &str) -> bool {
+    n.name() == Some(k)
+}
+fn texts_of(n: &Node, out: &mut Vec<String>) {
+    match n {
+        Node::Text(s) => out.push(s.clone()),
+        Node::Elem(_, _, k) => k.iter().for_each(|c| texts_of(c, out)),
+        _ => {}
+    }
+}
+fn textless(n: &Node) -> bool {
+    let mut t = Vec::new();
+    kids_of(n).iter().for_each(|c| texts_of(c, &mut t));
+    t.iter().all(|s| blank(s))
+}
+fn f16_outline_child(n: &Node) -> bool {
+    matches!(n, Node::Empty(name, a) if name == "contour" && !a.is_empty())
+}
+fn f16_child(n: &Node) -> bool {
+    match n {
+        Node::Empty(name, a) => (name == "unicode" && !a.iter().any(|e| e.0 == "hex")) || (name == "outline" && !a.is_empty()),
+        Node::Elem(name, a, k) => {
+            (matches!(name.as_str(), "outline" | "lib" | "note") && !a.is_empty())
+                || (name == "note" && k.iter().any(|c| matches!(c, Node::Elem(..) | Node::Empty(..))))
+                || (name == "outline" && tview(k).iter().any(|c| f16_outline_child(c)))
+        }
+        _ => false,
+    }
+}
+fn f16(doc: &[Node]) -> bool {
+    match root_of(doc) {
+        None => false,
+        Some(root) => {
+            let k = tview(kids_of(root));
+            let notes: Vec<&&Node> = k.iter().filter(|n| is_kind(n, "note")).collect();
+            k.iter().any(|n| f16_child(n)) || (notes.len() >= 2 && textless(notes[0]))
+        }
+    }
+}
+fn f14_node(depth: u32, n: &Node) -> bool {
+    let leaf = matches!(n, Node::Elem(name, _, _) if matches!(name.as_str(), "advance" | "unicode" | "image" | "anchor" | "guideline" | "component" | "point"));
+    leaf || match n {
+        Node::Elem(name, _, k) if depth > 0 => {
+            matches!(name.as_str(), "glyph" | "outline" | "contour") && k.iter().any(|c| matches!(c, Node::Comment(_)) || f14_node(depth - 1, c))
+        }
+        Node::Empty(name, _) => name == "note",
+        _ => false,
+    }
+}
+fn f14(doc: &[Node]) -> bool {
+    root_of(doc).map_or(false, |r| f14_node(3, r))
+}
+fn version_of(a: &[(String, String)]) -> Option<u32> {
+    let f = a.iter().find(|e| e.0 == "format")?;
+    let major = f.1.parse::<u32>().ok()?;
+    let minor_ok = match a.iter().find(|e| e.0 == "formatMinor") {
+        None => true,
+        Some(m) => m.1.parse::<u32>() == Ok(0),
+    };
+    if (major == 1 || major == 2) && minor_ok {
+        Some(major)
+    } else {
+        None
+    }
+}
+fn f17(doc: &[Node]) -> bool {
+    doc.iter().any(|n| matches!(n, Node::DocType(_)))
+        || match root_of(doc) {
+            None => false,
+            Some(root) => {
+                matches!(root, Node::Empty(..))
+                    || (root.attrs().and_then(|a| version_of(a)) == Some(1) && sig_kids(kids_of(root)).iter().any(|n| is_kind(n, "note")))
+            }
+        }
+}
+
 // ---------------------------------------------------------------- injections
 /// label of a case: what was done, whether the document obeys the rules of the property, and the
 /// known surface class it falls into ("" = none)
@@ -1238,16 +1341,21 @@ fn node_of_json(v: &serde_json::Value) -> Node {
 
 fn emit(out: &mut String, id: i64, ver: u32, label: &Label, doc: &[Node], xml: &str, corpus: &str) {
     let (tm, short, _) = parse_outcome(xml.as_bytes());
+    let (c14, c16, c17) = (f14(doc), f16(doc), f17(doc));
+    let tm = Xt::L(vec![tm, Xt::L(vec![Xt::b(label.legal), Xt::b(c14), Xt::b(c16), Xt::b(c17)])]);
     let tbl = pf_table(doc);
     let _ = std::fmt::Write::write_fmt(
         out,
         format_args!(
-            "{{\"id\":{},\"ver\":{},\"inj\":{},\"legal\":{},\"class\":{},\"impl\":{},\"case\":{},\"exp\":{},\"xml\":{},\"corpus\":{}}}\n",
+            "{{\"id\":{},\"ver\":{},\"inj\":{},\"legal\":{},\"class\":{},\"f14\":{},\"f16\":{},\"f17\":{},\"impl\":{},\"case\":{},\"exp\":{},\"xml\":{},\"corpus\":{}}}\n",
             id,
             ver,
             json_str(&label.inj),
             label.legal,
             json_str(label.class),
+            c14,
+            c16,
+            c17,
             json_str(&short),
             json_str(&Xt::L(vec![xt_doc(doc), xt_pf_table(&tbl)]).packed()),
             json_str(&tm.packed()),
